@@ -32,8 +32,10 @@ Record fsig := mkSig {
   s_kwdefaults : list (option dexpr)    (* ast.arguments.kw_defaults, aligned with kwonly *)
 }.
 
-Definition erased_expr (cfg : config) : dexpr :=
-  match erase_const cfg with EConstNone => DNone | EConstOther => DConst end.
+Definition erased_of (v : erase_value) : dexpr :=
+  match v with EConstNone => DNone | EConstOther => DConst end.
+Definition erased_expr (cfg : config) : dexpr := erased_of (erase_const cfg).
+Definition erased_kwexpr (cfg : config) : dexpr := erased_of (erase_kwconst cfg).
 
 (* GenericTranspiler._erase_arg_defaults *)
 Definition erase (cfg : config) (s : fsig) : fsig :=
@@ -44,7 +46,7 @@ Definition erase (cfg : config) (s : fsig) : fsig :=
                    end;
      s_kwdefaults := match erase_kwdefaults cfg with
                      | EraseNothing => s_kwdefaults s
-                     | _ => map (option_map (fun _ => erased_expr cfg)) (s_kwdefaults s)
+                     | _ => map (option_map (fun _ => erased_kwexpr cfg)) (s_kwdefaults s)
                      end |}.
 
 (* S: evaluating a default expression when a `def` statement is executed *)
@@ -346,7 +348,7 @@ Definition erase_on (m : erase_mode) : bool := match m with EraseNothing => fals
 Definition cfg_ok (cfg : config) : bool :=
   match map_keys cfg, select_by cfg, ft_closure cfg with
   | NSelfFreevars, NFactoryFreevars, ClSelected => true | _, _, _ => false end
-  && match len_check cfg with None => true | Some (a, b) => len_operand_ok a b end
+  && match len_check cfg with None => false | Some (a, b) => len_operand_ok a b end
   && guard_ok (defaults_guard cfg) && guard_ok (kwdefaults_guard cfg)
   && list_beq mitem_beq (no_future (wrap_module cfg)) wrap_expected
   && erase_on (erase_defaults cfg) && erase_on (erase_kwdefaults cfg)
